@@ -3,6 +3,7 @@ package types
 import (
 	"fmt"
 	"io"
+	"strings"
 
 	resourcetypes "github.com/projecteru2/core/resource/types"
 )
@@ -60,6 +61,10 @@ func (o DeployOptions) GetProcessing(nodename string) *Processing {
 func (o *DeployOptions) Validate() error {
 	if o.Name == "" {
 		return ErrEmptyAppName
+	}
+	// names are components of the metadata keys, "/" is the separator there
+	if strings.Contains(o.Name, "/") {
+		return ErrSlashInName
 	}
 	if o.Podname == "" {
 		return ErrEmptyPodName
@@ -207,6 +212,9 @@ func (o *AddNodeOptions) Validate() error {
 	}
 	if o.Endpoint == "" {
 		return ErrInvaildNodeEndpoint
+	}
+	if strings.Contains(o.Nodename, "/") || strings.Contains(o.Podname, "/") {
+		return ErrSlashInName
 	}
 	return nil
 }
